@@ -111,6 +111,12 @@ CHECKS = {
     'C32': dict(engine='native-enum', category='other', design_ref='DESIGN.md §5 C32',
                 text='universal-model argument: the real reduce/accumulate run with concatenation on the free monoid, so agreement with functools/itertools for a length n holds for every '
                      'associative f; all n up to the bound, both methods, initial values, depth bounds', note='bounded in n (64 quick / 512 thorough), complete over f', technique='bounded evaluation on the free monoid'),
+    'C18': dict(engine='symx', category='other', design_ref='DESIGN.md §5 C18',
+                text='partial: (1) declassification precondition on every value opened inside a protocol (real code on symbolic secrets and randomness): public, or multiplicatively blinded, or '
+                     'REST + g*uniform[0,R) with a fresh mixed-radix mask, g | REST and 2R >= 2^k * #values(REST) under the path condition; no mask reused; (2) exact distribution of the whole view '
+                     '(opened values and public zero-test bits) per secret input by exhaustive enumeration for tiny types: equal outputs => statistical distance within the additive slack',
+                note='bounded (l = 4..8, k = 8/16 symbolic; l = 3, k = 2..3 exhaustive); smudging lemma and independence/uniformity of randomness assumed; found and led to the _mod mask repair',
+                technique='modular symbolic execution with a declassification ghost + exhaustive distribution enumeration'),
     'C33': dict(engine='native-enum', category='other', design_ref='DESIGN.md §5 C33',
                 text='range/shape contracts of every function of mpyc/random.py on argument grids incl. population sizes 0 and 1 with deterministic PRSS seeds; uniformity decided by '
                      'enumerating ALL secret-bit strings (random_bits stubbed) up to a stated length: counts per outcome exactly proportional to the documented probabilities at every depth',
